@@ -572,6 +572,11 @@ fn bad_case(bin: &str, c: &Value, rep: &mut Report) {
         "bad_port" => vec!["query", "-g", "csgo", "-i", "127.0.0.1", "-p", "99999", "-f", fmt],
         "bad_format" => vec!["query", "-g", "csgo", "-i", "127.0.0.1", "-f", "yaml"],
         "zero_timeout" => vec!["query", "-g", "csgo", "-i", "127.0.0.1", "-p", &p, "-f", fmt, "--read-timeout", "0"],
+        "tiny_read_timeout" => vec!["query", "-g", "csgo", "-i", "127.0.0.1", "-p", &p, "-f", fmt, "--read-timeout", "0.0000000001"],
+        "tiny_write_timeout" => vec!["query", "-g", "csgo", "-i", "127.0.0.1", "-p", &p, "-f", fmt, "--write-timeout", "1e-10"],
+        "tiny_connect_timeout" => vec!["query", "-g", "minecraft", "-i", "127.0.0.1", "-p", &p, "-f", fmt, "--connect-timeout", "0.0000000004"],
+        "negative_timeout" => vec!["query", "-g", "csgo", "-i", "127.0.0.1", "-p", &p, "-f", fmt, "--read-timeout=-1"],
+        "text_timeout" => vec!["query", "-g", "csgo", "-i", "127.0.0.1", "-p", &p, "-f", fmt, "--write-timeout", "soon"],
         "bad_retries" => vec!["query", "-g", "csgo", "-i", "127.0.0.1", "-f", fmt, "--retries", "-1"],
         _ => vec!["query", "-g", "csgo", "-f", fmt],
     };
